@@ -19,3 +19,6 @@ pub mod pub_c08_states;
 
 #[path = "pub_c07_defrag.rs"]
 pub mod pub_c07_defrag;
+
+#[path = "pub_c03_record.rs"]
+pub mod pub_c03_record;
